@@ -1,3 +1,69 @@
-/-! # C16 — (stub: property theorems go here; see docs/BUILDING.md) -/
+import PtVerif.Proofs.Neutron
+/-!
+# C16 — D2O contrast matching agrees with direct substitution of labile hydrogen
+
+Model (`PtVerif.Model.Neutron`): `replace` (`formulas._isotope_substitution`), `water`
+(`"H2O@0.9982n"`, `"D2O@0.9982n"` with the natural-density conversion), `d2oSlds`, `d2oSld`,
+`d2oMatch`, `mixValues` (nsf.py 1025-1131), `molecule`, `moleculeD2Osld` (fasta.Molecule).
+The solvent literals of nsf.py and fasta.py are generated (`Generated/NeutronConsts`).
+Tie: `harness/ptv/props/C16.py`.
+
+Incoherent SLD is documented not to mix linearly and is not claimed for the substituted compound.
+-/
 namespace PtVerif.C16
+open PtModel PtModel.Neutron PtProofs.Neutron
+
+/-- **volume fraction 0** is the H2O/D2O solvent mixture (all three components) -/
+theorem vf0_is_solvent (t : Tbl ℝ) (c : Compound ℝ) (w d : ℝ) :
+    d2oSld t c w 0 d = (d2oSlds t c w).map fun s => mixValues s.2.1 s.1 d :=
+  PtProofs.Neutron.vf0_is_solvent t c w d
+
+/-- **volume fraction 1** is the solute: D- and H-substituted forms mixed by the D2O fraction -/
+theorem vf1_is_solute (t : Tbl ℝ) (c : Compound ℝ) (w d : ℝ) :
+    d2oSld t c w 1 d = (d2oSlds t c w).map fun s => mixValues s.2.2.2 s.2.2.1 d :=
+  PtProofs.Neutron.vf1_is_solute t c w d
+
+/-- **in between** the SLDs mix linearly in the volume fraction -/
+theorem linear_in_volume_fraction (t : Tbl ℝ) (c : Compound ℝ) (w vf d : ℝ) (s1 s0 : Sld3 ℝ)
+    (h1 : d2oSld t c w 1 d = some s1) (h0 : d2oSld t c w 0 d = some s0) :
+    d2oSld t c w vf d = some (mixValues s1 s0 vf) :=
+  PtProofs.Neutron.linear_in_volume_fraction t c w vf d s1 s0 h1 h0
+
+/-- **match point**: at the reported D2O fraction the solution's real SLD is the same for every
+    volume fraction (and equals the reported SLD); the denominator is assumed non-zero, i.e. a
+    match point exists -/
+theorem match_point_independent_of_vf (t : Tbl ℝ) (c : Compound ℝ) (w : ℝ)
+    (s : Sld3 ℝ × Sld3 ℝ × Sld3 ℝ × Sld3 ℝ) (hs : d2oSlds t c w = some s)
+    (hden : matchDenominator s ≠ 0) (f sld : ℝ) (hm : d2oMatch t c w = some (f, sld)) (vf : ℝ) :
+    (d2oSld t c w vf f).map (·.1) = some sld :=
+  PtProofs.Neutron.match_point_independent_of_vf t c w s hs hden f sld hm vf
+
+/-- … and it is *the* fraction with that property -/
+theorem match_point_unique (t : Tbl ℝ) (c : Compound ℝ) (w : ℝ)
+    (s : Sld3 ℝ × Sld3 ℝ × Sld3 ℝ × Sld3 ℝ) (hs : d2oSlds t c w = some s)
+    (hden : matchDenominator s ≠ 0) (f sld : ℝ) (hm : d2oMatch t c w = some (f, sld)) (d : ℝ)
+    (heq : (d2oSld t c w 0 d).map (·.1) = (d2oSld t c w 1 d).map (·.1)) : d = f :=
+  PtProofs.Neutron.match_point_unique t c w s hs hden f sld hm d heq
+
+/-- **fasta**: `Molecule.sld/.Dsld` are the real SLDs of the H- and D-substituted forms and
+    `Molecule.D2Omatch` is the match fraction of `D2O_match` as a percentage.  The proof uses
+    that fasta.py and nsf.py contain the same solvent literals (generated data). -/
+theorem fasta_match_is_percentage (t : Tbl ℝ) (m : Compound ℝ) (mol : Molecule ℝ)
+    (hmol : molecule t m = some mol) :
+    ∃ s f sld, d2oSlds t m PtGen.ABSORPTION_WAVELENGTH = some s ∧
+      d2oMatch t m PtGen.ABSORPTION_WAVELENGTH = some (f, sld) ∧
+      mol.sld = s.2.2.1.1 ∧ mol.dsld = s.2.2.2.1 ∧ mol.d2oMatch = 100 * f :=
+  PtProofs.Neutron.fasta_match_is_percentage t m mol hmol
+
+/-- **fasta**: `Molecule.D2Osld(vf, d)` is the real part of `D2O_sld(labile formula, vf, d)` -/
+theorem fasta_D2Osld_eq (t : Tbl ℝ) (m : Compound ℝ) (vf d : ℝ) :
+    moleculeD2Osld t m vf d = (d2oSld t m PtGen.ABSORPTION_WAVELENGTH vf d).map (·.1) :=
+  PtProofs.Neutron.fasta_D2Osld_eq t m vf d
+
+/-- the two modules use the same solvent (data fact over the generated literals) -/
+theorem fasta_water_eq_nsf_water :
+    (PtGen.fasta_H2O_natural_density : ℝ) = PtGen.nsf_H2O_natural_density ∧
+    (PtGen.fasta_D2O_natural_density : ℝ) = PtGen.nsf_D2O_natural_density :=
+  PtProofs.Neutron.fasta_water_eq_nsf_water
+
 end PtVerif.C16
